@@ -127,6 +127,9 @@ def membership(args):
     return body
 
 
+from .xhair import crosshair  # noqa: E402  (second opinion, thorough tier)
+
+
 def configs(tier):
     N = 4 if tier == 'quick' else 6
     K = 3 if tier == 'quick' else 4
@@ -139,4 +142,7 @@ def configs(tier):
                 continue
             out.append({'name': 'list-n%d-k%d' % (n, k), 'task': 'membership', 'args': {'n': n, 'k': k},
                         'weight': 4 ** k, 'split': 32 if k >= 3 else None, 'engine': {'validate': 50, 'margin': 1e-12}})
+    if tier == 'thorough':
+        out.append({'name': 'crosshair-second-opinion', 'task': 'crosshair', 'args': {'functions': ['eq_all_coordinates_n2']}, 'weight': 1000,
+                    'engine': {'validate': 0, 'path_timeout_s': 900}})
     return out
